@@ -64,7 +64,7 @@ def _surface(draw):
                                   st.text(alphabet=[chr(c) for c in range(32, 127)], max_size=20))),
         'cgap': draw(st.sampled_from(['', ' ', '\t', '   '])),
         'blank_before': draw(st.sampled_from([0, 0, 0, 1, 2])),
-        'join': draw(st.integers(0, 3)) == 0,
+        'join': draw(st.booleans()),
         'joinws': draw(st.sampled_from(WS)),
     }
 
